@@ -78,7 +78,8 @@ func c17Tokenizer(prior string, doc []byte) *json.Tokenizer {
 
 var strVariants = []string{`"a"`, `""`, `"k\n"`, `"é😀"`, "\"é\"", `"a\"b\\"`, `"</x>&"`,
 	`"abcdefgh"`, `"abcdefg\t"`, `"0123456789abcdef"`, `"0123456789abcde\/"`, `"long string beyond sixteen bytes A ok"`}
-var numVariants = []string{"0", "7", "-1", "12", "-0", "1.5", "1e2", "-2.5E-3", "18446744073709551615", "-9223372036854775808", "0.0", "1E+2"}
+var numVariants = []string{"0", "7", "-1", "12", "-0", "1.5", "1e2", "-2.5E-3", "18446744073709551615", "-9223372036854775808", "0.0", "1E+2",
+	"18446744073709551616", "-9223372036854775809", "123456789012345678901234567890", "-123456789012345678901234567890", "9007199254740993", "1e400", "-0.0"}
 var litVariants = []string{"true", "false", "null"}
 var wsVariants = []string{"", " ", "\n", "\t \r\n", "  "}
 
@@ -260,23 +261,32 @@ func c17RunDoc(c *Ctx, k c17Case) {
 					fail("RawValue.Number", "true", "false")
 				}
 				f, _ := strconv.ParseFloat(tok, 64)
-				if got := t.Float(); got != f && !(math.IsNaN(got) && math.IsNaN(f)) {
+				if got := t.Float(); math.Float64bits(got) != math.Float64bits(f) && !(math.IsNaN(got) && math.IsNaN(f)) {
 					fail("Tokenizer.Float", fmt.Sprint(f), fmt.Sprint(got))
 				}
-				if u, e := strconv.ParseUint(tok, 10, 64); e == nil {
-					if kind != json.Uint {
-						fail("Tokenizer.Kind", "Uint", fmt.Sprint(kind))
-					} else if got := t.Uint(); got != u {
-						fail("Tokenizer.Uint", fmt.Sprint(u), fmt.Sprint(got))
+				// the kind follows the spelling (an integer literal is Uint or Int whatever its size, anything with a
+				// fraction or an exponent is Float); Uint() / Int() are held to the value when it fits 64 bits
+				switch {
+				case strings.ContainsAny(tok, ".eE"):
+					if kind != json.Float {
+						fail("Tokenizer.Kind", "Float", fmt.Sprint(kind))
 					}
-				} else if n, e := strconv.ParseInt(tok, 10, 64); e == nil {
+				case strings.HasPrefix(tok, "-"):
 					if kind != json.Int {
 						fail("Tokenizer.Kind", "Int", fmt.Sprint(kind))
-					} else if got := t.Int(); got != n {
-						fail("Tokenizer.Int", fmt.Sprint(n), fmt.Sprint(got))
+					} else if n, e := strconv.ParseInt(tok, 10, 64); e == nil {
+						if got := t.Int(); got != n {
+							fail("Tokenizer.Int", fmt.Sprint(n), fmt.Sprint(got))
+						}
 					}
-				} else if kind != json.Float {
-					fail("Tokenizer.Kind", "Float", fmt.Sprint(kind))
+				default:
+					if kind != json.Uint {
+						fail("Tokenizer.Kind", "Uint", fmt.Sprint(kind))
+					} else if u, e := strconv.ParseUint(tok, 10, 64); e == nil {
+						if got := t.Uint(); got != u {
+							fail("Tokenizer.Uint", fmt.Sprint(u), fmt.Sprint(got))
+						}
+					}
 				}
 			case "l":
 				switch tok {
